@@ -8,12 +8,16 @@
     list the encoder accepts, with every quantised bias inside its 14-bit field (|bias| <= 81.91 m; beyond it
     the field wraps), decodes to exactly its recognised entries, each once, grouped by ascending satellite,
     in list order within a satellite, with the signal unchanged and the bias on its 0.01 m grid.
-    Not proved: the same for 1230 (four entries in mask order: needs the sort) and the frame wrapper;
-    covered by the ROUNDTRIP correspondence and the impl-side probes. *)
+    For 1230 ([C16_roundtrip_1230], Proofs/Bias1230.v): whatever list with pairwise distinct signals the
+    encoder accepts decodes to the same entries, each once, in mask order (L1 C/A, L1 P, L2 C/A, L2 P),
+    signal unchanged, bias on its 0.02 m grid (saturating at the 16-bit field); all its signals are among
+    the four.  Not proved: the frame wrapper around the three lists (covered for the plain layouts by
+    C01_build_decodes; here by the ROUNDTRIP correspondence and the impl-side probes). *)
 From Coq Require Import ZArith List Lia Bool.
 From RtcmModel Require Import Types BitIO SigId Bias Layout Top.
 From RtcmGen Require Import GenSignals GenLayouts.
-From RtcmProofs Require Import ListZ SigProofs BiasProofs BitProofs BiasRoundTrip.
+From Coq Require Import Sorting.Permutation Sorting.Sorted.
+From RtcmProofs Require Import ListZ SigProofs BiasProofs BitProofs BiasRoundTrip Bias1230.
 Import ListNotations.
 Open Scope Z_scope.
 
@@ -71,6 +75,41 @@ Proof.
   exact (cb_encode_decodes ssr_table_1065 (proj2 C16_ssr_tables_ok) SAT_CAP_1065 5 ltac:(lia) 31 ltac:(lia) ltac:(vm_compute; discriminate) d o l es d' o' Hb Ho He Hn Hi H).
 Qed.
 
+(** table obligation: on the four 1230 signals the order of SigId (by GLONASS signal id) is the mask order *)
+Theorem C16_glo_order : forallb (fun i => forallb (fun j => match sig_cmp (sig_table G_glo) (sig1230 i) (sig1230 j), (i ?= j) with
+                                                        | Lt, Lt | Eq, Eq | Gt, Gt => true | _, _ => false end) [0; 1; 2; 3]) [0; 1; 2; 3] = true.
+Proof. vm_compute. reflexivity. Qed.
+
+(** 1230: the decoded list is a rearrangement of the encoded one (nothing dropped, nothing duplicated), in
+    strictly ascending mask position, each entry with its signal unchanged and its bias dequant (quant bias) *)
+Theorem C16_roundtrip_1230 : forall d o l es d' o', bytes_ok d = true -> 0 <= o ->
+  es1230_of_vals l = Some es -> NoDup (map fst es) ->
+  t_encode_frag FBias1230 (d, o) (VList l) = Ok (d', o') ->
+  exists sorted, Permutation sorted es /\ StronglySorted (fun x y => idx1230 x < idx1230 y) sorted /\
+    (forall e, In e es -> 0 <= idx1230 e <= 3) /\
+    t_decode_frag FBias1230 d' o = Ok (VList (map norm1230 sorted), o').
+Proof.
+  intros d o l es d' o' Hb Ho He Hn H. cbn [t_encode_frag encode_frag] in H. cbn [t_decode_frag decode_frag].
+  apply (b1230_encode_decodes (sig_table G_glo) d o l es d' o'); try assumption.
+  intros i j Hi Hj. pose proof C16_glo_order as T. rewrite forallb_forall in T. specialize (T i Hi). rewrite forallb_forall in T. specialize (T j Hj).
+  destruct (sig_cmp (sig_table G_glo) (sig1230 i) (sig1230 j)), (i ?= j); (reflexivity || discriminate T).
+Qed.
+Check C16_roundtrip_1230 : forall d o l es d' o', bytes_ok d = true -> 0 <= o ->
+  es1230_of_vals l = Some es -> NoDup (map fst es) ->
+  t_encode_frag FBias1230 (d, o) (VList l) = Ok (d', o') ->
+  exists sorted, Permutation sorted es /\ StronglySorted (fun x y => idx1230 x < idx1230 y) sorted /\
+    (forall e, In e es -> 0 <= idx1230 e <= 3) /\
+    t_decode_frag FBias1230 d' o = Ok (VList (map norm1230 sorted), o').
+
+(** non-vacuity of the 1230 theorem: three entries out of order, one bias beyond the field *)
+Example C16_example_1230 :
+  match t_encode_frag FBias1230 (repeat 0 10, 3) (VList [VStruct [VSig 2 80; VF32 1065353216]; VStruct [VSig 1 67; VF32 3221225472]; VStruct [VSig 2 67; VF32 1167867904]]) with
+  | Ok (d', o') => match t_decode_frag FBias1230 d' 3 with
+                   | Ok (VList [VStruct [VSig 1 67; _]; VStruct [VSig 2 67; _]; VStruct [VSig 2 80; _]], o'') => o'' =? o'
+                   | _ => false end
+  | _ => false end = true.
+Proof. vm_compute. reflexivity. Qed.
+
 (** non-vacuity: 40 entries on one satellite are refused (the D7 witness), 31 are accepted *)
 Definition entries (n : nat) : list val := map (fun i => VStruct [VInt 7; VSig 1 67; VF32 0]) (seq 0 n).
 Example C16_example : is_ok (t_encode_frag FBias1059 (repeat 0 200, 0) (VList (entries 40))) = false /\
@@ -82,3 +121,5 @@ Print Assumptions C16_decode_no_panic.
 Print Assumptions C16_counts_fit_1059.
 Print Assumptions C16_roundtrip_1059.
 Print Assumptions C16_roundtrip_1065.
+Print Assumptions C16_glo_order.
+Print Assumptions C16_roundtrip_1230.
